@@ -326,39 +326,44 @@ class Net(object):
                 return ready, [], []
 
         C_NetworkingThread = C.NetworkingThread
+        orig_run = C_NetworkingThread.__dict__.get('run') or threading.Thread.run
 
-        class SimThread(C.NetworkingThread):
-            def start(self_):
-                if net.start_hook is not None:
-                    net.threads.append(self_)
-                    self_.sim_state = 'pending'
-                    return net.start_hook(self_)
-                net.pending.append(self_)
+        # The networking thread class stays the library's own class (its name in the module is not rebound, so code such as
+        # super(NetworkingThread, self) keeps working); four public methods of threading.Thread are overridden ON the class while
+        # the simulation is installed and put back afterwards.
+        def sim_start(self_):
+            if net.start_hook is not None:
                 net.threads.append(self_)
                 self_.sim_state = 'pending'
+                return net.start_hook(self_)
+            net.pending.append(self_)
+            net.threads.append(self_)
+            self_.sim_state = 'pending'
 
-            def is_alive(self_):
-                return getattr(self_, 'sim_state', None) in ('pending', 'running')
+        def sim_is_alive(self_):
+            return getattr(self_, 'sim_state', None) in ('pending', 'running')
 
-            def join(self_, timeout=None):
-                if net.join_hook is not None:
-                    return net.join_hook(self_)
-                if self_.is_alive():
-                    raise RuntimeError('join on a live thread in a synchronous simulation')
+        def sim_join(self_, timeout=None):
+            if net.join_hook is not None:
+                return net.join_hook(self_)
+            if self_.is_alive():
+                raise RuntimeError('join on a live thread in a synchronous simulation')
 
-            def run(self_):
-                # loop occupancy is observed through the public surface only: a thread is in the I/O loop from its first
-                # select() until run() returns
-                net.io_threads[threading.get_ident()] = self_
-                self_.sim_in_loop = False
-                try:
-                    return C_NetworkingThread.run(self_)
-                finally:
-                    if self_.sim_in_loop:
-                        net.loop_events.append(('exit', self_))
-                        self_.sim_in_loop = False
-                    if net.io_threads.get(threading.get_ident()) is self_:
-                        del net.io_threads[threading.get_ident()]
+        def sim_run(self_):
+            # loop occupancy is observed through the public surface only: a thread is in the I/O loop from its first
+            # select() until run() returns
+            net.io_threads[threading.get_ident()] = self_
+            self_.sim_in_loop = False
+            try:
+                return orig_run(self_)
+            finally:
+                if self_.sim_in_loop:
+                    net.loop_events.append(('exit', self_))
+                    self_.sim_in_loop = False
+                if net.io_threads.get(threading.get_ident()) is self_:
+                    del net.io_threads[threading.get_ident()]
+        self.thread_patch = (C_NetworkingThread, {k: C_NetworkingThread.__dict__.get(k) for k in ('start', 'is_alive', 'join', 'run')})
+        C_NetworkingThread.start, C_NetworkingThread.is_alive, C_NetworkingThread.join, C_NetworkingThread.run = sim_start, sim_is_alive, sim_join, sim_run
 
         fake_timeit = types.SimpleNamespace(default_timer=self.tick)
 
@@ -399,8 +404,6 @@ class Net(object):
                     swap(mod, name, fake_os)
                 elif obj is real_os.urandom:
                     swap(mod, name, fake_urandom)
-                elif obj is C_NetworkingThread:
-                    swap(mod, name, SimThread)
         self.C = C
         self.current_connection = None
         return self
@@ -410,6 +413,15 @@ class Net(object):
             for mod, name, value in reversed(self.saved):
                 setattr(mod, name, value)
             self.saved = None
+        if getattr(self, 'thread_patch', None):
+            cls, orig = self.thread_patch
+            for k, v in orig.items():
+                if v is None:
+                    if k in cls.__dict__:
+                        delattr(cls, k)
+                else:
+                    setattr(cls, k, v)
+            self.thread_patch = None
         if Net._installed is self:
             Net._installed = None
 
